@@ -8,27 +8,29 @@
    table the meaning says.  So for every shape the round trip ToObject(ToBytes(v)) = v is
    reduced to a statement that mentions no bytes: "the meanings of what v denotes are v".  That
    last step is proved for the object-graph fragment in Props/C01graph.v (directly on bytes) and
-   checked by the round-trip oracle and both model correspondences for the other shapes. *)
+   checked by the round-trip oracle and both model correspondences for the other shapes.
+   (`pok v`: the payload of every byte slice in v consists of octets; every octet the encoder
+   model writes then is one - Proofs/EncBytes.v.) *)
 From Coq Require Import ZArith List Lia.
 From GH Require Import Base.GoSem Base.Result Base.Utf8 Gen.GoLeaf Model.Scalars Model.Strings Spec.Grammar
-  Model.Encoder Model.Decoder Model.Session Proofs.EncoderFacts Proofs.EncSpec Proofs.DecRefines Proofs.DecRefinesConv.
+  Model.Encoder Model.Decoder Model.Session Proofs.EncoderFacts Proofs.EncSpec Proofs.EncBytes Proofs.DecRefines Proofs.DecRefinesConv Proofs.DenReg.
 Import ListNotations.
 Open Scope Z_scope.
 
 Theorem C01_roundtrip_through_the_grammar : forall nm F v st' te tm,
   write_data v (estate0 nm) = Ok st' -> small st' -> nm_complete nm v = true ->
   wfv nm F (S (length (ebytes st'))) v -> (need v <= S (S (length (ebytes st'))))%nat ->
-  bytes_ok (ebytes st') ->
+  pok v ->
   exists hv pst, den nm F [] v hv (erefs st') /\
     (forall d h', sv te tm hv [] d h' -> decode te tm (ebytes st') = Ok (d, [], dst_of pst h')) /\
-    (forall d r s, reg hv -> decode te tm (ebytes st') = Ok (d, r, s) ->
+    (forall d r s, notime v -> decode te tm (ebytes st') = Ok (d, r, s) ->
        exists h', sv te tm hv [] d h' /\ r = [] /\ s = dst_of pst h').
 Proof.
-  intros nm F v st' te tm W Sm Hc Hw Hn B.
+  intros nm F v st' te tm W Sm Hc Hw Hn Pk. pose proof (encode_octets nm v st' Pk W) as B.
   destruct (encode_parses nm F _ v st' W Sm Hc Hw) as (hv & pst & D & V).
   assert (P : hparse pstate0 (ebytes st') = Ok (hv, [], pst)) by (unfold hparse; apply V; exact Hn).
   exists hv, pst. split; [exact D|]. split.
   - intros d h' S. eapply decoder_refines_grammar; eassumption.
-  - intros d r s Rg Dc. eapply decode_success_is_meaning; eassumption.
+  - intros d r s Nt Dc. pose proof (den_reg nm F _ _ _ _ D Nt) as Rg. eapply decode_success_is_meaning; eassumption.
 Qed.
 Print Assumptions C01_roundtrip_through_the_grammar.
